@@ -108,6 +108,10 @@ def _rename(term, offset, edge_offset=0):
     return z3.substitute(term, *sub) if sub else term
 
 
+_NO_SOLVER = [False]
+_SOLVER_BUDGET = [20]
+
+
 def _same(a, b):
     """equality of two real terms for all values: structural, by normalisation, or by the solver"""
     if a.eq(b):
@@ -117,14 +121,18 @@ def _same(a, b):
     from ..sym import ac_key
     if ac_key(z3.simplify(a)) == ac_key(z3.simplify(b)):
         return True
+    if _NO_SOLVER[0] or _SOLVER_BUDGET[0] <= 0:
+        return False
+    _SOLVER_BUDGET[0] -= 1
     from .. import discharge as D
-    return D.prove("term equality", [], a == b, timeout_ms=20000, use_cvc5=False).status == "proved"
+    return D.prove("term equality", [], a == b, timeout_ms=5000, use_cvc5=False, rounds=0).status == "proved"
 
 
 def worker(arg):
     tier, canary = arg
     from . import common
     undo = common.apply_canary(*canary) if canary else None
+    _NO_SOLVER[0] = canary is not None
     try:
         return _worker(tier)
     finally:
@@ -247,7 +255,7 @@ def main(tier):
             ck.violation(f"assembly table contract (bounded):{name}", {"solver_output": str(bad), "kind": "c12-bounded"}, reproduced=True)
         ck.extra["code_reached"] = {k: v for k, v in o["reached"].items() if k.startswith("jaxley")}
     for can, oc in zip(CANARIES, outs[1:]):
-        ref = oc[0] == "ok" and (bool(oc[1]["error"]) or bool(oc[1]["bounded_bad"]) or any(r["status"] == "refuted" for r in oc[1]["results"]))
+        ref = oc[0] == "ok" and not oc[1]["error"] and (bool(oc[1]["bounded_bad"]) or any(r["status"] == "refuted" for r in oc[1]["results"]))
         ck.canaries.append((f"{can[0]}: {can[2][:40]!r} -> ...", ref))
     for f in ("jaxley.modules.base.Module.to_jax", "jaxley.modules.base.Module.get_all_parameters", "jaxley.modules.base.Module.get_all_states", "jaxley.modules.base.Module.step",
               "jaxley.modules.base.Module._step_channels_state", "jaxley.modules.base.Module._channel_currents", "jaxley.utils.cell_utils.compute_axial_conductances"):
